@@ -123,7 +123,20 @@ impl Object for Font {
         };
         let _other = dict.clone();
         let data = match subtype {
-            FontType::Type0 => FontData::Type0(Type0Font::from_dict(dict, resolve)?),
+            FontType::Type0 => {
+                // the descendant of a composite font is a CIDFont, never another composite font
+                // (a chain of composite fonts would be loaded once per path through it)
+                if let Some(desc) = dict.get("DescendantFonts") {
+                    for d in desc.clone().resolve(resolve)?.into_array()? {
+                        if let Primitive::Dictionary(d) = d.resolve(resolve)? {
+                            if d.get("Subtype").and_then(|s| s.as_name().ok()) == Some("Type0") {
+                                bail!("a Type0 font as descendant of a Type0 font");
+                            }
+                        }
+                    }
+                }
+                FontData::Type0(Type0Font::from_dict(dict, resolve)?)
+            }
             FontType::Type1 => FontData::Type1(TFont::from_dict(dict, resolve)?),
             FontType::TrueType => FontData::TrueType(TFont::from_dict(dict, resolve)?),
             FontType::CIDFontType0 => FontData::CIDFontType0(CIDFont::from_dict(dict, resolve)?),
